@@ -209,6 +209,13 @@ func oracle(w *out.W, sc scenario, recs []stepRec) {
 						return
 					}
 				}
+				// "set-version": afterwards V is the recorded current version
+				if rec.dir.find(V) != nil {
+					if r := rowOf(st.Revs, V); r == nil {
+						w.Violation(sc.id, "set-version-not-recorded", fmt.Sprintf("`set %s` succeeded but no revision of %s is recorded afterwards: %s", V, V, desc(i)))
+						return
+					}
+				}
 				for _, r := range st.Revs {
 					if r.Ver > V {
 						w.Violation(sc.id, "set-keeps-newer", fmt.Sprintf("revision %s > %s survived set: %s", r.Ver, V, desc(i)))
